@@ -13,6 +13,7 @@ VOUCHED_TIME = KaniUnit(
     attachments=[("vouched_time/src/lib.rs", os.path.join(KC, "vouched_time.rs"), ""),
                  ("vouched_time/src/atomic_base_time.rs", os.path.join(KC, "atomic_base_time.rs"), "atomic_base_time")],
     kani_args=["-Z", "stubbing"],
+    params={"quick": {"W": 4, "UW": 7}, "thorough": {"W": 6, "UW": 9}},
     harnesses=[
         Harness("c14_window_full_domain", ["C14"], "VouchedTime::check_vouched_time",
                 "ensures ret.is_ok() <=> 0 <= local <= u64::MAX /\\ -59900 <= local - base <= 2990 "
@@ -37,6 +38,14 @@ VOUCHED_TIME = KaniUnit(
                 "lock free: applies the update iff not older than the current base time, advances the sequence by one, "
                 "releases the lock; the next snapshot returns the newest pair", kind="proof", covers=2, timeout=900,
                 mod="atomic_base_time"),
+        Harness("c18_snapshot_under_interfering_writes", ["C18"], "AtomicBaseTime::snapshot",
+                "every atomic load of the reader is a preemption point at which up to W complete writes (real advance_once, lock "
+                "held by a writer that never releases it) may land: snapshot still returns a published pair, never panics, and "
+                "never reaches the blocking Mutex::lock (stubbed to fail)", kind="bounded",
+                bound="at most {W} interfering writes per snapshot call", covers=2, timeout=1500, mod="atomic_base_time"),
+        Harness("c18_try_update_never_blocks", ["C18"], "AtomicBaseTime::try_update",
+                "never reaches the blocking Mutex::lock, lock held or free; cannot succeed while another writer holds the lock",
+                kind="proof", timeout=900, mod="atomic_base_time"),
         Harness("c14_real_voucher_pins_parameters", ["C14"], "VouchedTime::check",
                 "with the real raffle code: a voucher for the base under the crate's parameters is accepted; one for "
                 "another value, another base, or other parameters is rejected", kind="proof", timeout=600),
